@@ -104,12 +104,20 @@ structure Hub where
   limit : Nat → Nat := fun _ => 0                    -- configured session limit (0 = unlimited)
   deriving Inhabited
 
+/-- One message written to a connection. `bk` = backend of the session that owns the
+connection at that moment (`none`: the connection has no session). -/
+structure Out where
+  conn : Nat
+  msg : Msg
+  bk : Option Nat := none
+  deriving Repr, Inhabited
+
 /-- Accumulator of one step: state, messages written to connections (in emission
 order) and sessions whose connection was sent a closing message (`bye`, matching
 `disinvite`): the code closes those asynchronously (`go session.Close()`). -/
 structure Acc where
   h : Hub
-  outs : List (Nat × Msg) := []
+  outs : List Out := []
   closes : List Nat := []
   deriving Inhabited
 
@@ -206,7 +214,7 @@ def sendTo (a : Acc) (s0 : Nat) (m : Msg) : Acc :=
     | some m1 =>
       match x1.conn with
       | some c =>
-        { a with h := setSess a.h s (some x1), outs := a.outs ++ [(c, m1)],
+        { a with h := setSess a.h s (some x1), outs := a.outs ++ [⟨c, m1, some x1.backend⟩],
                  closes := if isClosing x1 m1 then a.closes ++ [s] else a.closes }
       | none =>
         -- storePendingMessage: only one chat-refresh notice is kept
@@ -329,43 +337,48 @@ def dropFromTables (h : Hub) (s : Nat) : Hub :=
     anon := removeL h.anon s
     dialout := removeL h.dialout s }
 
-/-- `VirtualSession.Close` (not via `removesession`: the `Hub.virtualSessions` entry is handled by the caller). -/
+/-- Table part of `VirtualSession.Close`: `Hub.removeSession`, the `Hub.virtualSessions` entry of this
+session (removed with it when the fix for C07/C19 is present), its session-subject listener. -/
+def dropVirtual (h : Hub) (v : Nat) (x : Sess) : Hub :=
+  let h2 := dropFromTables h v
+  let h3 : Hub := if Generated.Hub.vtableClearedOnClose
+    then { h2 with vtable := fun p k => if p = x.parent ∧ k = x.vkey ∧ h2.vtable p k = some v then none else h2.vtable p k }
+    else h2
+  { h3 with sessL := fun k => if k = v then false else h3.sessL k }
+
+/-- `VirtualSession.Close` (when reached through `removesession` the caller has already removed the
+`Hub.virtualSessions` entry). -/
 def closeVirtual (a : Acc) (v : Nat) : Acc :=
   match a.h.sess v with
   | none => a
   | some x =>
     let hp := modSess a.h x.parent (fun p => { p with children := removeL p.children v })
     let (a1, _) := leaveRoom { a with h := hp } v
-    let h2 := dropFromTables a1.h v
-    -- `Hub.virtualSessions` entry of this session (removed with it when the fix for C07/C19 is present)
-    let h3 : Hub := if Generated.Hub.vtableClearedOnClose
-      then { h2 with vtable := fun p k => if p = x.parent ∧ k = x.vkey ∧ h2.vtable p k = some v then none else h2.vtable p k }
-      else h2
-    { a1 with h := { h3 with sessL := fun k => if k = v then false else h3.sessL k } }
+    { a1 with h := dropVirtual a1.h v x }
 
-/-- `ClientSession.closeAndWait`. -/
+/-- Everything `ClientSession.closeAndWait` does to the tables for the session itself
+(after it left its room): `Hub.removeSession`, bus listeners, connection, per-backend count. -/
+def dropClient (h : Hub) (s : Nat) (x : Sess) : Hub :=
+  let h2 := dropFromTables h s
+  let h3 := if x.user ≠ "" then setUserL h2 x.backend x.user (removeL (h2.userL x.backend x.user) s) else h2
+  let h4 : Hub := { h3 with sessL := fun k => if k = s then false else h3.sessL k }
+  -- detach the connection; it stays open, without a session
+  let h5 : Hub := match x.conn with
+    | some c => { h4 with connSess := fun k => if k = c then none else h4.connSess k }
+    | none => h4
+  { h5 with count := fun b => if b = x.backend then removeL (h5.count b) s else h5.count b }
+
+/-- `ClientSession.closeAndWait`: leave the room, drop the session from every table, then the
+virtual sessions of an internal client end with it (the code closes them in a goroutine of
+their own; the table updates above do not depend on them). -/
 def closeClient (a : Acc) (s : Nat) : Acc :=
   match a.h.sess s with
   | none => a
-  | some x0 =>
+  | some _ =>
     let (a1, _) := leaveRoom a s
     match a1.h.sess s with
     | none => a1
-    | some x =>
-      let h2 := dropFromTables a1.h s
-      -- unregister user and session listeners
-      let h3 := if x.user ≠ "" then setUserL h2 x.backend x.user (removeL (h2.userL x.backend x.user) s) else h2
-      let h4 : Hub := { h3 with sessL := fun k => if k = s then false else h3.sessL k }
-      -- virtual sessions of an internal client end with it
-      let a5 := x.children.foldl closeVirtual { a1 with h := h4 }
-      let h6 := a5.h
-      -- detach the connection; it stays open, without a session
-      let h7 : Hub := match x.conn with
-        | some c => { h6 with connSess := fun k => if k = c then none else h6.connSess k }
-        | none => h6
-      -- per-backend count
-      let h8 : Hub := { h7 with count := fun b => if b = x0.backend then removeL (h7.count b) s else h7.count b }
-      { a5 with h := h8 }
+    | some x => x.children.foldl closeVirtual { a1 with h := dropClient a1.h s x }
 
 def closeSession (a : Acc) (s : Nat) : Acc :=
   match a.h.sess s with
@@ -500,7 +513,7 @@ def processHello (a : Acc) (c b : Nat) (kind : Kind) (user : String) (dialoutFea
   let h := a.h
   let counted := kind ≠ .internal
   if counted && h.limit b ≠ 0 && (h.count b).length ≥ h.limit b then
-    { a with h := { h with expectHello := removeL h.expectHello c ++ [c] }, outs := a.outs ++ [(c, .error "session_limit_exceeded")] }
+    { a with h := { h with expectHello := removeL h.expectHello c ++ [c] }, outs := a.outs ++ [⟨c, .error "session_limit_exceeded", some b⟩] }
   else
     let s := h.nextSid
     let x : Sess := { backend := b, kind := kind, user := user, dialoutFeat := dialoutFeat, inCallFeat := inCallFeat, conn := some c,
@@ -515,7 +528,7 @@ def processHello (a : Acc) (c b : Nat) (kind : Kind) (user : String) (dialoutFea
       anon := if user = "" && kind ≠ .internal then h.anon ++ [s] else h.anon
       dialout := if kind = .internal && dialoutFeat then h.dialout ++ [s] else h.dialout }
     let h2 := if user ≠ "" then setUserL h1 b user (h1.userL b user ++ [s]) else h1
-    { a with h := h2, outs := a.outs ++ [(c, .hello s user)] }
+    { a with h := h2, outs := a.outs ++ [⟨c, .hello s user, some b⟩] }
 
 /-- `UserId()`: the authenticated user, or the one supplied with the room join. -/
 def userOf (h : Hub) (s : Nat) (x : Sess) : String :=
@@ -545,15 +558,15 @@ def notifyResumed (a : Acc) (s : Nat) : Acc :=
 def processResume (a : Acc) (c : Nat) (os : Option Nat) : Acc :=
   if !a.h.connOpen c || (a.h.connSess c).isSome then a else
   match os with
-  | none => { a with outs := a.outs ++ [(c, .error "no_such_session")] }
+  | none => { a with outs := a.outs ++ [⟨c, .error "no_such_session", none⟩] }
   | some s =>
     match a.h.sess s with
-    | none => { a with outs := a.outs ++ [(c, .error "no_such_session")] }
+    | none => { a with outs := a.outs ++ [⟨c, .error "no_such_session", none⟩] }
     | some x =>
-      if x.kind = .virtual then { a with outs := a.outs ++ [(c, .error "no_such_session")] } else
+      if x.kind = .virtual then { a with outs := a.outs ++ [⟨c, .error "no_such_session", none⟩] } else
       -- SetClient: take over from a previous connection
       let (h1, outs1) := match x.conn with
-        | some p => (closeConn a.h p, [(p, Msg.bye "session_resumed")])
+        | some p => (closeConn a.h p, [(⟨p, Msg.bye "session_resumed", some x.backend⟩ : Out)])
         | none => (a.h, [])
       let pend := x.pending
       let hadPart := pend.any isPartUpdate
@@ -562,13 +575,13 @@ def processResume (a : Acc) (c : Nat) (os : Option Nat) : Acc :=
         connSess := fun k => if k = c then some s else h1.connSess k
         expired := removeL h1.expired s
         expectHello := removeL h1.expectHello c }
-      let a3 : Acc := { a with h := h2, outs := a.outs ++ outs1 ++ [(c, .hello s (userOf h2 s x1))] }
+      let a3 : Acc := { a with h := h2, outs := a.outs ++ outs1 ++ [⟨c, .hello s (userOf h2 s x1), some x.backend⟩] }
       -- NotifySessionResumed: flush what was queued (written raw, no filter), then the participants list
       let a4 := pend.foldl (fun a m =>
         match a.h.sess s with
         | some y =>
           (match y.conn with
-           | some c' => { a with outs := a.outs ++ [(c', m)], closes := if isClosing y m then a.closes ++ [s] else a.closes }
+           | some c' => { a with outs := a.outs ++ [⟨c', m, some y.backend⟩], closes := if isClosing y m then a.closes ++ [s] else a.closes }
            | none => a)
         | none => a) a3
       if pend = [] || !hadPart then notifyResumed a4 s else a4
@@ -587,9 +600,9 @@ def processBye (a : Acc) (c : Nat) : Acc :=
   match a.h.connSess c with
   | none =>
     -- nothing but hello is accepted on a connection without session
-    if a.h.connOpen c then { a with outs := a.outs ++ [(c, .error "hello_expected")] } else a
+    if a.h.connOpen c then { a with outs := a.outs ++ [⟨c, .error "hello_expected", none⟩] } else a
   | some s =>
-    let a1 : Acc := { a with outs := a.outs ++ [(c, .bye "")] }
+    let a1 : Acc := { a with outs := a.outs ++ [⟨c, .bye "", (a.h.sess s).map (·.backend)⟩] }
     let a2 := processDisconnect a1 c
     closeSession a2 s
 
@@ -602,11 +615,11 @@ def housekeeping (a : Acc) (level : Nat) : Acc :=
       | none => a
       | some x =>
         let a' := match x.conn with
-          | some c => { a with outs := a.outs ++ [(c, Msg.bye "room_join_timeout")], h := closeConn a.h c }
+          | some c => { a with outs := a.outs ++ [⟨c, Msg.bye "room_join_timeout", some x.backend⟩], h := closeConn a.h c }
           | none => a
         closeSession a' s) a1 else a1
   if level ≥ 1 then a2.h.expectHello.foldl (fun a c =>
-      { a with outs := a.outs ++ [(c, Msg.bye "hello_timeout")], h := closeConn a.h c }) a2 else a2
+      { a with outs := a.outs ++ [⟨c, Msg.bye "hello_timeout", none⟩], h := closeConn a.h c }) a2 else a2
 
 /-! ### messages and control messages (Hub.processMessageMsg / processControlMsg) -/
 
@@ -859,11 +872,11 @@ def stepAcc (a : Acc) : Op → Acc
   | .api b r req => processApi a b r req
   | .setLimit b l => { a with h := { a.h with limit := fun k => if k = b then l else a.h.limit k } }
 
-def step (h : Hub) (op : Op) : Hub × List (Nat × Msg) :=
+def step (h : Hub) (op : Op) : Hub × List Out :=
   let a := flushCloses (stepAcc { h := h } op)
   (a.h, a.outs)
 
-def run (h : Hub) : List Op → Hub × List (List (Nat × Msg))
+def run (h : Hub) : List Op → Hub × List (List Out)
   | [] => (h, [])
   | op :: ops =>
     let (h1, o) := step h op
